@@ -131,3 +131,77 @@ pub fn determinism(seed: u64, verif_dir: &str) -> i32 {
         0
     }
 }
+
+/// Reach probes: read the evidence the last runs of the checks wrote and compare with floors.
+/// A probe below its floor prints `REACH-WARNING <probe>`; this never fails a check.
+pub fn reach(verif_dir: &str) -> i32 {
+    let warnings = std::cell::Cell::new(0);
+    let probe = |name: &str, got: f64, floor: f64| {
+        if got < floor {
+            println!("REACH-WARNING {name}: {got} < {floor}");
+            warnings.set(warnings.get() + 1);
+        } else {
+            println!("reach ok   {name}: {got} >= {floor}");
+        }
+    };
+    let load = |p: &str| -> Option<serde_json::Value> { std::fs::read_to_string(format!("{verif_dir}/evidence/{p}.json")).ok().and_then(|t| serde_json::from_str(&t).ok()) };
+    let num = |v: &serde_json::Value| v.as_f64().unwrap_or(0.0);
+    if let Some(e) = load("C12") {
+        let c = &e["coverage"];
+        let thorough = e["tier"] == "thorough";
+        let k = if thorough { 10.0 } else { 1.0 };
+        probe("C12.distinct_hash_orders", num(&c["distinct_hash_orders"]), 1000.0 * k);
+        probe("C12.jobs_with_earlier_jobs_in_process", num(&c["jobs_with_earlier_jobs_in_process"]), 2000.0 * k);
+        probe("C12.jobs_in_concurrent_rounds", num(&c["jobs_in_concurrent_rounds"]), 500.0 * k);
+        probe("C12.interleaving_switches", num(&c["interleaving_switches"]), 1000.0 * k);
+        probe("C12.distinct_interleavings", num(&c["distinct_interleavings"]), 50.0 * k);
+        probe("C12.outputs_with_rendered_union", num(&c["outputs_with_rendered_union"]), 100.0 * k);
+        let frac = |s: &serde_json::Value| {
+            let t = s.as_str().unwrap_or("0/1").to_string();
+            let mut it = t.split('/');
+            let a: f64 = it.next().and_then(|x| x.parse().ok()).unwrap_or(0.0);
+            let b: f64 = it.next().and_then(|x| x.parse().ok()).unwrap_or(1.0);
+            if b == 0.0 { 0.0 } else { a / b }
+        };
+        probe("C12.generated_accepted_share", frac(&c["generated_accepted"]), 0.4);
+        probe("C12.compositions_accepted_share", frac(&c["compositions_accepted"]), 0.3);
+        let pf = c["perturbations_fired"].as_object().map(|m| m.len()).unwrap_or(0) as f64;
+        probe("C12.perturbation_kinds_fired", pf, 3.0);
+        probe("C12.clock_calls (expected 0 today)", -num(&c["clock_calls"]), 0.0);
+    } else {
+        println!("REACH-WARNING no C12 evidence");
+        warnings.set(warnings.get() + 1);
+    }
+    if let Some(e) = load("C13") {
+        let c = &e["coverage"];
+        let thorough = e["tier"] == "thorough";
+        let k = if thorough { 8.0 } else { 1.0 };
+        probe("C13.steps.multi_file", num(&c["steps"]["multi_file"]), 500.0 * k);
+        probe("C13.ok_checked_under_fired_fault", num(&c["ok_checked_under_fired_fault"]), 10.0 * k);
+        probe("C13.recoveries_checked", num(&c["recoveries_checked"]), 100.0 * k);
+        probe("C13.crash_between_two_file_writes", num(&c["after_failed_run"]["crash_between_two_file_writes"]), 1.0);
+        probe("C13.after_failed_run.prefix_of_expected", num(&c["after_failed_run"]["prefix_of_expected"]), 5.0);
+        probe("C13.overwrote_longer_file", num(&c["overwrote_longer_file"]), 10.0 * k);
+        probe("C13.cli_runs", num(&c["cli_runs"]), 20.0 * k);
+        probe("C13.histories_with_ok_and_err_steps", num(&c["histories_with_ok_and_err_steps"]), 30.0 * k);
+        for kind in ["lexical", "syntax", "type", "crossfile_type"] {
+            probe(&format!("C13.single_faulty_by_kind.{kind}"), num(&c["single_faulty_by_kind"][kind]), 3.0);
+        }
+        probe("C13.single_faulty_with_same_base_name_elsewhere", num(&c["single_faulty_with_same_base_name_elsewhere"]), 1.0);
+        for rel in ["order", "interference", "same_texts", "visibility", "visibility_negative_control"] {
+            probe(&format!("C13.relation_checks.{rel}"), num(&c["relation_checks"][rel]), 20.0);
+        }
+        let fired = c["faults_fired"].as_object().cloned().unwrap_or_default();
+        for call in ["crash", "mkdir:errno", "open_r:errno", "open_w:errno", "opendir:errno", "read:errno", "readdir:errno", "statx:errno", "write:disk_full", "write:eintr", "write:errno", "write:short", "open_stub:errno", "read_stub:errno"] {
+            let n: f64 = fired.iter().filter(|(k, _)| k.starts_with(call)).map(|(_, v)| num(v)).sum();
+            probe(&format!("C13.faults_fired.{call}"), n, 1.0);
+        }
+        let pf = c["perturbations_fired"].as_object().map(|m| m.len()).unwrap_or(0) as f64;
+        probe("C13.perturbation_kinds_fired", pf, 4.0);
+    } else {
+        println!("REACH-WARNING no C13 evidence");
+        warnings.set(warnings.get() + 1);
+    }
+    println!("selftest-reach: {} warning(s)", warnings.get());
+    0
+}
